@@ -41,6 +41,11 @@ type stream struct {
 	rerr    error // terminal error for reader after drain
 	rclosed bool  // reader side closed: reads fail at once, writes fail
 
+	// writeHook (if set) sees everything written so far after each completed Write call; a non-nil result is
+	// returned to the writer as that call's error although all of its bytes were taken and delivered (a transport
+	// that reports a transient error for a segment that did go out). Called with the stream's lock held.
+	writeHook func(rec []byte) error
+
 	// errWithData: the Read that hands over the last bytes before the end of the stream returns the terminal
 	// error together with them (io.Reader allows both; sockets and TLS connections do it)
 	errWithData bool
@@ -178,6 +183,11 @@ func (s *stream) write(p []byte) (int, error) {
 			return n, io.ErrClosedPipe
 		}
 		if len(p) == 0 {
+			if s.writeHook != nil && n > 0 {
+				if err := s.writeHook(s.rec); err != nil {
+					return n, err
+				}
+			}
 			return n, nil
 		}
 		if expired(s.wdl) {
@@ -322,6 +332,13 @@ func (e *End) Closed() (bool, time.Time) {
 // CloseWrite ends this end's outgoing direction: after the other side has
 // drained what was written it reads err (io.EOF when err is nil).
 func (e *End) CloseWrite(err error) { e.out.closeWrite(err) }
+
+// SetWriteHook installs a hook on what THIS end writes (see stream.writeHook).
+func (e *End) SetWriteHook(h func(rec []byte) error) {
+	e.out.mu.Lock()
+	e.out.writeHook = h
+	e.out.mu.Unlock()
+}
 
 // SetErrWithLastBytes: the other side's Read that drains the last bytes written before CloseWrite
 // returns them together with the terminal error instead of returning the error on the next call.
